@@ -55,15 +55,6 @@ def natList (j : Json) (k : String) : List Nat :=
   | .ok (.arr a) => a.toList.filterMap fun e => e.getNat?.toOption
   | _ => []
 
-/-- edges are `(a, b)` = "a depends on b" -/
-def mkGraph (n : Nat) (edges : List (Nat × Nat)) (reverse : Bool) (roots : List Nat) : Graph :=
-  let deps : V → List V := fun v => (edges.filter (·.1 == v)).map (·.2)
-  let dependents : V → List V := fun v => (edges.filter (·.2 == v)).map (·.1)
-  { verts := List.range n
-    pre := if reverse then dependents else deps
-    post := if reverse then deps else dependents
-    skip := skipOf deps n roots }
-
 def subStr (w : String) (limit : Option Nat) (s : St) : Option Sched → (noneStr : String) → String
   | none, ns => w ++ ":" ++ ns
   | some ⟨_, .next⟩, _ => w ++ ":next"
@@ -221,7 +212,7 @@ def projOfEdges (n : Nat) (edges : List (Nat × Nat)) : CV.DepGraph.Proj :=
   ⟨(List.range n).map (fun v => ⟨v, (edges.filter (·.1 == v)).map (fun e => ⟨e.2, true⟩)⟩), []⟩
 
 /-- since round 5 the replayed graph is the one `TravProj.plan` (the model of `CollectInDependencyOrder`, about which
-`Props/C13Collect.lean` speaks) computes from the project — `mkGraph` above is kept for reference only -/
+`Props/C13Collect.lean` speaks) computes from the project -/
 def planOfArgs (args : Json) : CV.TravProj.Plan :=
   CV.TravProj.plan (projOfEdges (getNat args "n") (natPairs args "edges")) (getBool args "reverse") (getInt args "limit")
     (natList args "roots")
